@@ -97,6 +97,20 @@ class Interp:
             return False if all(v is False for v in vals) else None
         if isinstance(e, ast.Compare) and len(e.ops) == 1:
             op, l, r = e.ops[0], e.left, e.comparators[0]
+            tv = getattr(self.b, "table_value", None)
+            if tv is not None:
+                # `<table local> is [not] None` and `<x> [not] in <table local>` (a lookup in a module-level dict constant)
+                if isinstance(op, (ast.Is, ast.IsNot)) and isinstance(r, ast.Constant) and r.value is None:
+                    t = tv(l, f, s)
+                    if t is not None:
+                        res = t[0] == "none"
+                        return res if isinstance(op, ast.Is) else (not res)
+                if isinstance(op, (ast.In, ast.NotIn)) and isinstance(r, ast.Name):
+                    t = tv(r, f, s)
+                    if t is not None and t[0] == "list":
+                        r = t[1]
+                    elif t is not None:
+                        return None
             var = self.b.read(l, f)
             other = r
             if var is None:
